@@ -967,8 +967,10 @@ func idOddStartCase(c *ev.Case) {
 	}
 	c.Logf("NewIdGenerator(%s, randBit=%d)", desc, rb)
 	calls := rng.Range(4, 16)
+	elapsed := func() int64 { return time.Since(start).Milliseconds() }
 	for k := 0; k < calls; k++ {
 		var id randz.ID
+		b, wb := elapsed(), time.Now().UnixMilli()
 		if !c.Guard("Generate", func() { id = g.Generate() }) {
 			return
 		}
@@ -978,6 +980,26 @@ func idOddStartCase(c *ev.Case) {
 			return
 		}
 		c.Add(counter, 1)
+		if a := elapsed(); kind == 3 && a == b && b == math.MaxInt64/1000000 {
+			// The start lies more than the largest time.Duration back, so time.Since(start)
+			// is that largest Duration whenever it is read: no clock is involved and the
+			// reading is known exactly. An ID that carries this reading is accepted, and so
+			// is one that carries the unsaturated number of milliseconds between the start
+			// and now (taken from two readings of the wall clock around the call, one
+			// millisecond of slack on either side; this alternative only ever accepts).
+			tb, ta := wb-start.UnixMilli()-1, time.Now().UnixMilli()-start.UnixMilli()+1
+			wlo, whi := widthRange(rb)
+			switch {
+			case timeFieldWidth(int64(id), b, a, wlo, whi) >= 0:
+				c.Add("idodd_saturated_past_time_fields_checked", 1)
+			case tb <= ta && timeFieldWidth(int64(id), tb, ta, wlo, whi) >= 0:
+				c.Add("idodd_saturated_past_time_fields_checked", 1)
+				c.Add("idodd_saturated_past_time_fields_unsaturated", 1)
+			default:
+				c.Failf("id-time-field", "NewIdGenerator(%s, randBit=%d): Generate() = %d (binary %b) does not carry the elapsed milliseconds above %s: time.Since(start).Milliseconds() is %d before and after the call (mod 2^41: %d, binary %b), the unsaturated difference of the two dates is %d..%d ms (mod 2^41: %d..%d)", desc, rb, int64(id), int64(id), widthText(wlo, whi), b, b&timeMask, b&timeMask, tb, ta, tb&timeMask, ta&timeMask)
+				return
+			}
+		}
 	}
 	c.Distinct(ev.Mix(uint64(kind), uint64(rb), key))
 	if c.WantSample() {
@@ -1356,9 +1378,8 @@ func idReaderCase(c *ev.Case) {
 				c.Failf("id-negative", "NewIdGenerator(now-%v, randBit=%d).Generate() = %d is negative (%s)", off, rb, v, what)
 				return
 			}
-			upper := v >> uint(e)
-			if b+((upper-b)&timeMask) > a {
-				c.Failf("id-time-field", "NewIdGenerator(now-%v, randBit=%d) with %s: Generate() = %d carries %d above its %d random bits, but the elapsed milliseconds were %d just before and %d just after the call", off, rb, what, v, upper, e, b, a)
+			if wlo, whi := widthRange(rb); timeFieldWidth(v, b, a, wlo, whi) < 0 {
+				c.Failf("id-time-field", "NewIdGenerator(now-%v, randBit=%d) with %s: Generate() = %d (binary %b) does not carry the elapsed milliseconds above %s: they were %d just before and %d just after the call", off, rb, what, v, v, widthText(wlo, whi), b, a)
 				return
 			}
 			switch {
